@@ -27,7 +27,7 @@ SUPPLIED = [(l, c, n, f) for l in (0, 77) for c in (0, 88) for n in (0, 99) for 
 
 
 def _mc(rep, max_objs):
-    env = dict(VT_DEV="", VT_FAMILY="c33", VT_MAXOBJS=max_objs, VT_MAXFILES=2, VT_MAXREFS=1, VT_MAXPOSTPONE=0)
+    env = D.mc_env("c33", max_objs, 2, 1, 0)
     r = tlc.model_check("MC_LoaderProc", cfg="MC_LoaderProc_C33.cfg", env=env, timeout=3000)
     tlc.require_ok(r, "MC_LoaderProc_C33")
     rep.add_mc("MC_LoaderProc_C33", r, INVS)
